@@ -324,14 +324,21 @@ func damagedInputs(e *env) []func() {
 			return f[:len(f)-3]
 		}},
 		{"payload-trailing-garbage", false, func(f []byte, he int) []byte { return append(append([]byte(nil), f...), "xx"...) }},
+		{"payload-trailing-1-byte", false, func(f []byte, he int) []byte { return append(append([]byte(nil), f...), 'x') }},
+		{"payload-trailing-whole-chunk", false, func(f []byte, he int) []byte {
+			return append(append([]byte(nil), f...), bytes.Repeat([]byte{7}, refage.EncChunkSize)...)
+		}},
 	}
 	for _, kt := range []string{"X", "E"} {
-		for _, size := range []int{0, 100, 140000} {
+		for _, size := range []int{0, 100, 65536, 131072, 140000} {
 			for _, dm := range dmgs {
 				for _, pre := range []bool{false, true} {
 					kt, size, dm, pre := kt, size, dm, pre
-					if !r.Thorough() && kt == "E" && (size == 100 || pre) {
+					if !r.Thorough() && kt == "E" && (size == 100 || size == 65536 || pre) {
 						continue
+					}
+					if !r.Thorough() && (size == 65536 || size == 131072) && dm.header {
+						continue // the full-chunk sizes are there for the payload classes
 					}
 					out = append(out, func() {
 						d := e.dir()
